@@ -21,6 +21,9 @@ def Out.pre (es : List Effect) (o : Out α) : Out α := ⟨o.res, o.conn, es ++ 
 
 theorem Out.pre_nil (o : Out α) : Out.pre [] o = o := by cases o; rfl
 
+theorem Out.pre_pre (a b : List Effect) (o : Out α) : Out.pre a (Out.pre b o) = Out.pre (a ++ b) o := by
+  cases o; simp [Out.pre, List.append_assoc]
+
 theorem run_bind (x : M α) (f : α → M β) (c : Conn) :
     (x >>= f) c = match x c with
       | ⟨.ok a, c1, e1⟩ => Out.pre e1 (f a c1)
